@@ -56,6 +56,15 @@ class MyInt(int):
 
 NTI = NewType("NTI", int)
 
+
+class MyTuple(tuple):
+    pass
+
+
+class NTup(typing.NamedTuple):
+    a: int
+    b: str
+
 # (name, hint, witness values)
 POOL = [
     ("int", int, [0, 5]), ("bool", bool, [True]), ("str", str, ["s"]), ("float", float, [1.5]), ("MyInt", MyInt, [MyInt(3)]), ("None", None, [None]), ("Any", Any, [object(), 1]),
@@ -73,6 +82,8 @@ POOL = [
     ("Union[List[int],int]", Union[List[int], int], [[1], 1]), ("Union[int,float]", Union[int, float], [1, 1.5]),
     ("MA", MA, [MA(1)]), ("MB", MB, [MB(2, "q")]), ("MC", MC, [MC(1, "y", 3)]), ("MD", MD, [MD("s")]), ("GM[int]", GM[int], [GM(1)]), ("GM[str]", GM[str], [GM("s")]),
     ("Optional[MA]", Optional[MA], [None, MA(1)]), ("List[MA]", List[MA], [[MA(1)]]), ("List[MB]", List[MB], [[MB(1)]]), ("Dict[str,MA]", Dict[str, MA], [{"k": MA(1)}]),
+    # tuple-ish classes: subclasses of bare `tuple`, but of no parametrised tuple - not even of the one with NO items (known finding)
+    ("MyTuple", MyTuple, [MyTuple((1,))]), ("NTup", NTup, [NTup(1, "x")]),
     ("NTI", NTI, [NTI(1)]), ("Annotated[int]", Annotated[int, "m"], [1]), ("Literal[1,2]", Literal[1, 2], [1]), ("Literal['a']", Literal["a"], ["a"]),
 ]
 BY_NAME = {n: (h, w) for n, h, w in POOL}
@@ -241,7 +252,10 @@ def check_pair(ctx, sname, dname, wrapper):
             if out.kind == "ok" and not conforms(out.value.f, desc(d_hint)):
                 witness = (w, out.value.f)
                 break
-        ctx.violation(f"unsound-coercion:{_shape(desc(sh))}->{_shape(desc(dh))}",
+        key = f"unsound-coercion:{_shape(desc(sh))}->{_shape(desc(dh))}"
+        if desc(dh) == ("tuple", ()) and desc(sh)[0] == "cls" and isinstance(desc(sh)[1], type) and issubclass(desc(sh)[1], tuple):
+            key = "unsound-coercion:tuple-class->empty-parametrisation"     # known finding: Tuple[()] has no arguments and so passes for 'not generic'
+        ctx.violation(key,
                       f"{s_hint!r} -> {d_hint!r} is outside the documented relation but a converter was produced" + (f"; witness {witness[0]!r} -> {witness[1]!r} does not conform" if witness else ""),
                       {**info, "witness": repr(witness)})
         return
